@@ -20,7 +20,7 @@ func faultKindsFor(class string, line string) []string {
 		return []string{"stall", "close", "close-after-echo", "error-text"}
 	case "change":
 		return []string{"stall", "close", "close-after-echo", "error-text", "garbage-output",
-			"garbled-echo", "warning-output", "info-output", "slow"}
+			"garbled-echo", "warning-output", "info-output", "slow", "warning-then-error"}
 	case "save":
 		return []string{"stall", "close", "error-text", "save-no-ok", "save-too-large", "garbage-output", "slow"}
 	case "confmode", "guard":
